@@ -13,7 +13,7 @@ ASSUMPTIONS = ["login reply of at least 12 bytes in the cases the Spec checker j
                "with the model only"]
 RULE = ("single operations of all 12 kinds; sequences of 2..12 operations on one API object (all ordered pairs of kinds in the "
         "thorough tier) with a fresh session id per login and the clock advanced between operations; pairs of objects with "
-        "different ids and keys run concurrently, sequences on one object whose device answers each read after 0.2 s .. 25 h of virtual time, including the four-frame thermostat flow against another object's login; non-trivial = distinct operations that wrote at least one command frame")
+        "different ids and keys run concurrently, thermostat control over all 32 request subsets x separate-swing or not x update-only or not, sequences on one object whose device answers each read after 0.2 s .. 25 h of virtual time, including the four-frame thermostat flow against another object's login; non-trivial = distinct operations that wrote at least one command frame")
 REQUIREMENT = ("frames of one operation = login frame of this API for this clock reading (key for type 1, device id for type 2), then "
                "1 command frame (thermostat control: 1-3) each carrying bytes 8-11 of this login's reply, this operation's "
                "timestamp and the configured device id (Spec/FrameSpec.v c03_check)")
@@ -170,6 +170,11 @@ def run(tier, rnd, out):
     seqs += [[rnd.choice(kinds) for _ in range(rnd.randrange(3, 13))] for _ in range(25 if tier == "quick" else 400)]
     cases, texts = run_sequences(rnd, seqs)
     judge(out, "sequences-on-one-object", cases, texts)
+    from props import c16
+    grid = [c16.gen_case(rnd, sub=sub, sep=sep, upd=upd) for sub in range(32) for sep in (False, True) for upd in (False, True)
+            for _ in range(1 if tier == "quick" else 6)]
+    for c in grid: c.pop("cur", None); c.pop("fault_at", None)
+    judge(out, "thermostat-request-grid", grid, world.run_cases_fresh(grid))
     cases, texts = run_slow_sequences(rnd, 30 if tier == "quick" else 600)
     judge(out, "slow-replies-on-one-object", cases, texts)
     cases, texts = run_interleaved(rnd, 40 if tier == "quick" else 1000)
